@@ -397,7 +397,13 @@ func (r *PipelineRunner) startJob(job *PipelineJob) {
 	r.wg.Add(1)
 	go func() {
 		defer r.wg.Done()
-		lastErr := job.sched.Schedule(graph)
+		sched := job.sched
+		lastErr := sched.Schedule(graph)
+		// A canceled job never completes as a plain success: if the cancel came in between two tasks, no task
+		// reported an error, but the remaining tasks have not been executed
+		if lastErr == nil && sched.Canceled() {
+			lastErr = context.Canceled
+		}
 		r.JobCompleted(job.ID, lastErr)
 	}()
 }
